@@ -211,6 +211,8 @@ struct Dir {
     peeks: u64,
     reader_done: bool,
     writer_done: bool,
+    /// the reader task of this direction has begun reading (it is not still busy with its own writes)
+    reader_started: bool,
     reader_quit: bool,
     segments: u64,
     /// largest byte count a single write / try_write call accepted
@@ -484,6 +486,7 @@ async fn reader_loop<R: AsyncRead + Unpin>(
     if side.reader_delay > 0 {
         tokio::time::sleep(Duration::from_millis(side.reader_delay as u64)).await;
     }
+    sh.dirs[d].borrow_mut().reader_started = true;
     let mut i = 0usize;
     let mut peek_saw_eof = false;
     loop {
@@ -993,6 +996,20 @@ pub fn run(sc: &Scenario) -> Outcome {
         budget += 10 * (segs + 4) * (lat_max / tick + 2) + (pauses * 8 + total_bytes.min(8192) * 2 + *gap as u64) / tick;
     }
 
+    // see the end of the stepping loop
+    const HARD_CAP: u64 = 400_000;
+    let max_pause: u64 = conns
+        .iter()
+        .flat_map(|(gap, c, s)| {
+            [c, s].into_iter().flat_map(|x| {
+                x.reads.iter().map(|r| r.2 as u64).chain(x.write_pauses.iter().map(|p| *p as u64)).chain([x.reader_delay as u64, x.linger_ms as u64]).collect::<Vec<u64>>()
+            }).chain([*gap as u64]).collect::<Vec<u64>>()
+        })
+        .max()
+        .unwrap_or(0);
+    let stall_window: u64 = 20 * (lat_max / tick + 2) + 4 * max_pause / tick + 50;
+    let mut last_progress: (usize, u64) = (0, 0);
+    let mut still_progressing_at_cap = false;
     let mut partitioned_ever = false;
     let mut held = false;
     let mut hold_used = false;
@@ -1081,8 +1098,26 @@ pub fn run(sc: &Scenario) -> Outcome {
             break;
         }
         if steps > budget {
-            break;
+            // The budget assumes one segment per write call.  An implementation may split a
+            // write into several segments (short writes are allowed by the API contract), so a
+            // transfer that is still making progress is given more time: it only counts as
+            // stalled once nothing was accepted or consumed for `stall_window` steps.
+            let progress: usize = shs.iter().map(|sh| sh.dirs.iter().map(|d| { let d = d.borrow(); d.accepted + d.consumed }).sum::<usize>()).sum();
+            if progress != last_progress.0 {
+                last_progress = (progress, steps);
+            }
+            if steps - last_progress.1 > stall_window || steps > HARD_CAP {
+                if steps > HARD_CAP {
+                    still_progressing_at_cap = true;
+                }
+                break;
+            }
         }
+    }
+    if still_progressing_at_cap {
+        // inconclusive, not a violation: the transfer was still moving when the harness gave up
+        out.label("hard-step-cap-reached-while-still-progressing(no-liveness-verdict)");
+        return out;
     }
     if let Some((sig, det)) = first_fail(&shs) {
         out.fail(sig, det);
@@ -1192,6 +1227,14 @@ pub fn run(sc: &Scenario) -> Outcome {
                 if let Some(e) = &g.reader_error {
                     out.fail(err_sig("reader-error-on-healthy-link"), format!("connection #{k} dir {d}: {e} after {} of {} bytes", g.consumed, g.accepted));
                     return out;
+                }
+                if !g.writer_done && !g.reader_started {
+                    // nobody reads this direction yet (the peer writes before it reads and is itself
+                    // blocked): an application-level deadlock of the scenario, possible when an
+                    // implementation splits a write into more segments than the window holds — the
+                    // delivery half presupposes a reader
+                    out.label("writer-blocked-while-the-peer-has-not-started-reading(no-liveness-verdict)");
+                    continue;
                 }
                 if !g.writer_done {
                     out.fail("writer-stalled-on-healthy-link", format!("connection #{k} dir {d}: accepted {} of {total} bytes after {steps} steps (budget {budget}); reader consumed {}", g.accepted, g.consumed));
